@@ -1,9 +1,11 @@
 package main
 
 import (
+	"context"
 	"errors"
 	"fmt"
 	"io"
+	"os"
 	"strings"
 	"time"
 
@@ -88,7 +90,10 @@ func c16Drive(args []string) int {
 					// (the three kinds of Ctx rotate over the positions; every position sees each of them within three
 					// neighbouring positions of the same mode / delivery)
 					c16CtxMode = (pi + mode + si) % 3
-					cr := &chunkReader{data: in, sizes: sizes, failAt: pos, failErr: errInjected}
+					// ... and so do the error values a real source fails with (the property says "a non-EOF error"): a
+					// generic one, the one truncated gzip / short HTTP bodies report, a closed pipe, a timeout, a cancellation
+					failErr := c16Errors[(pi+2*mode+3*si)%len(c16Errors)]
+					cr := &chunkReader{data: in, sizes: sizes, failAt: pos, failErr: failErr}
 					var rd io.Reader = cr
 					if mode == 1 {
 						rd = &twoPhaseErrReader{inner: cr}
@@ -102,7 +107,7 @@ func c16Drive(args []string) int {
 						fr = runFaulted(it.sch, cr, len(base)+2)
 					}
 					desc := M{"item": it.Name, "pos": pos, "mode": []string{"persistent", "temporary-then-persistent"}[mode], "one_byte": sizes != nil,
-						"ctx": []string{"fresh", "served an earlier transform", "caller-set CtxAwareErr"}[c16CtxMode]}
+						"ctx": []string{"fresh", "served an earlier transform", "caller-set CtxAwareErr"}[c16CtxMode], "error": failErr.Error()}
 					sum.eval(pos > 0 && pos < len(in), desc)
 					if fr.panicked != "" {
 						violation("C16", "panic-on-reader-error", "panic after a reader error: "+fr.panicked, desc)
@@ -157,6 +162,14 @@ func (w *wrapReader) Read(p []byte) (int, error) { return w.rd.Read(p) }
 // the Ctx a faulted run is given: a fresh one; one that already served an earlier, finished transform of the same Schema
 // (its CtxAwareErr is still that transform's); one whose CtxAwareErr the caller set itself (the documented option)
 var c16CtxMode = 0
+
+type timeoutErr struct{}
+
+func (timeoutErr) Error() string   { return "i/o timeout" }
+func (timeoutErr) Timeout() bool   { return true }
+func (timeoutErr) Temporary() bool { return true }
+
+var c16Errors = []error{errInjected, io.ErrUnexpectedEOF, io.ErrClosedPipe, timeoutErr{}, context.Canceled, io.ErrNoProgress, os.ErrDeadlineExceeded}
 
 type callerCtxErr struct{}
 
